@@ -67,6 +67,31 @@ func TestC05_SingleByteScalars(t *testing.T) {
 			}
 		}
 	}
+	// the one scalar with no non-zero byte: the identity, as a group element
+	for _, entry := range baseEntries {
+		if entry == "PrivateKey.PublicKey" {
+			continue
+		}
+		var got *secp256k1.Point
+		rcv := lib.Pt(ref.BaseMul(big.NewInt(7)))
+		switch entry {
+		case "ScalarBaseMult":
+			got = rcv.ScalarBaseMult(zero)
+		case "DoubleScalarMultBasepointVartime(s,0,G)":
+			got = rcv.DoubleScalarMultBasepointVartime(zero, zero, g)
+		case "DoubleScalarMultBasepointVartime(s,1,O)":
+			got = rcv.DoubleScalarMultBasepointVartime(zero, secp256k1.NewScalarFromUint64(1), secp256k1.NewIdentityPoint())
+		default:
+			got = hookBaseEntry(entry, rcv, zero)
+		}
+		if !bytes.Equal(got.UncompressedBytes(), []byte{0}) {
+			t.Fatalf("%s(0): got %x want the identity", entry, got.UncompressedBytes())
+		}
+		useAsGroupElement(t, entry, got, new(big.Int))
+		stat.Case("single-byte", []string{"zero-scalar"}, true, []byte("zero|"+entry), func() any {
+			return map[string]any{"s": "0", "entry": entry}
+		})
+	}
 	stat.Exhaustive("single-byte")
 }
 
@@ -180,6 +205,44 @@ func propBaseMult(t *rapid.T) {
 	}
 	if lib.ScInt(ls).Cmp(s) != 0 {
 		t.Fatal("scalar argument modified")
+	}
+	useAsGroupElement(t, entry, got, s)
+}
+
+type fataler interface {
+	Fatalf(format string, args ...any)
+}
+
+// useAsGroupElement: "returns exactly s*G" is a statement about the group
+// element the returned object stands for, not only about its encoding: an
+// object that encodes like s*G but is not a projective representative of it
+// (say the triple (0,0,0) for s = 0, which every encoder still writes as the
+// identity) is absorbed or mangled by the next addition.  The returned object
+// is compared with an independently built s*G and used as an operand.
+func useAsGroupElement(t fataler, entry string, got *secp256k1.Point, s *big.Int) {
+	want := ref.BaseMul(s)
+	if got.Equal(lib.Pt(want)) != 1 {
+		t.Fatalf("%s(%x): result is not Equal to the point decoded from the reference's encoding of s*G", entry, s)
+	}
+	isID := uint64(0)
+	if want.Inf {
+		isID = 1
+	}
+	if got.IsIdentity() != isID {
+		t.Fatalf("%s(%x): IsIdentity()=%d", entry, s, got.IsIdentity())
+	}
+	g := secp256k1.NewGeneratorPoint()
+	if sum := secp256k1.NewIdentityPoint().Add(got, g); !bytes.Equal(sum.UncompressedBytes(), want.Add(ref.G()).Uncompressed()) {
+		t.Fatalf("%s(%x) + G: got %x want %v (the result does not behave as s*G when used as an operand)", entry, s, sum.UncompressedBytes(), want.Add(ref.G()))
+	}
+	if sum := secp256k1.NewIdentityPoint().Add(g, got); !bytes.Equal(sum.UncompressedBytes(), want.Add(ref.G()).Uncompressed()) {
+		t.Fatalf("G + %s(%x): got %x want %v", entry, s, sum.UncompressedBytes(), want.Add(ref.G()))
+	}
+	if dbl := secp256k1.NewIdentityPoint().Double(got); !bytes.Equal(dbl.UncompressedBytes(), want.Add(want).Uncompressed()) {
+		t.Fatalf("2 * %s(%x): got %x want %v", entry, s, dbl.UncompressedBytes(), want.Add(want))
+	}
+	if neg := secp256k1.NewIdentityPoint().Subtract(g, got); !bytes.Equal(neg.UncompressedBytes(), ref.G().Add(want.Neg()).Uncompressed()) {
+		t.Fatalf("G - %s(%x): got %x", entry, s, neg.UncompressedBytes())
 	}
 }
 
